@@ -394,8 +394,113 @@ def run_history(history):
     return out
 
 
+# ------------------------------------------------------------------------------------------ a host request against an alarm change
+REGION = [
+    "secsgem.gem.alarm_capability:AlarmCapability.*",
+]
+CONC = [("en25", True, "set"), ("en25", True, "clear"), ("dis25", True, "set"), ("en25", False, "set"), ("en26", True, "set")]
+
+
+def run_conc(devs, budgets, request="en25", enabled_before=True, op="set"):
+    """S5F3 for an alarm (dispatcher thread) against set_alarm / clear_alarm of alarm 25 (application thread).  If alarm 25 is enabled
+    before and after the request, its change must be reported with exactly one S5F1; in any case at most one; the alarm ends set / cleared."""
+    box = {}
+
+    def driver(s):
+        s.frozen = True
+        s.line_points = False
+        hx = Harness(s)
+        if not hx.ok:
+            box["harness"] = "could not establish communication"
+            return
+        if enabled_before:
+            hx.apply("en25")
+        if op == "clear":
+            hx.apply("set25")
+        if hx.viol:
+            box["harness"] = f"set-up reported {hx.viol[0][0]}"
+            return
+        ep, h = hx.ep, hx.h
+        enable, alid = EVENTS[request][1]
+        body = e5.enc(("L", [("B", bytes([0x80 if enable else 0x00])), u(alid)]))
+        done = {}
+
+        def alarm_op():
+            (h.set_alarm if op == "set" else h.clear_alarm)(25)
+            done["ok"] = True
+
+        s.frozen = False
+        s.line_points = True
+        sysb = ep.send_primary(5, 3, True, body)
+        t = vrt.Thread(target=alarm_op, name="alarm-op")
+        t.start()
+        frames = []
+        for _ in range(6):
+            s.settle()
+            new = ep.pump()
+            frames += new
+            if not ep.auto_reply([f for f in new if f["system"] != sysb]):
+                break
+        s.line_points = False
+        s.frozen = True
+        box["done"] = bool(done)
+        box["s5f1"] = [f["body"].hex() for f in frames if f["stype"] == 0 and (f["stream"], f["function"]) == (5, 1)]
+        box["ack"] = [f["body"].hex() for f in frames if f["stype"] == 0 and f["system"] == sysb]
+        box["after"] = (bool(h.alarms[25].enabled), bool(h.alarms[25].set))
+        h.disable()
+
+    sched = vrt.run(driver, devs, budgets, max_steps=500000, max_time=1e6, line_points=True)
+    res = {"trace": sched.trace, "v": []}
+    case = {"part": "conc", "request": request, "enabled_before": enabled_before, "op": op}
+    if sched.harness_failure or sched.driver_exception or box.get("harness"):
+        res["harness"] = (sched.harness_failure or sched.driver_exception or box.get("harness"))[-1200:]
+        res["obs"] = None
+        return res
+    if sched.outcome != "done":
+        res["v"].append((f"C13|concurrent|execution-{sched.outcome}|{request}+{op}", {"case": case, "info": sched.deadlock_info}))
+        res["obs"] = sched.outcome
+        return res
+    res["obs"] = {"s5f1": len(box["s5f1"]), "after": box["after"]}
+    enable, alid = EVENTS[request][1]
+    enabled_after = enable if alid == 25 else enabled_before
+    tag = f"{request}+{op}|enabled-before={enabled_before}"
+    if not box["done"]:
+        res["v"].append((f"C13|concurrent|alarm-call-did-not-return|{tag}", {"case": case}))
+    if box["after"] != (enabled_after, op == "set"):
+        res["v"].append((f"C13|concurrent|alarm-state-after|got={box['after']}|{tag}", {"case": case}))
+    if len(box["s5f1"]) > 1:
+        res["v"].append((f"C13|concurrent|S5F1-count={len(box['s5f1'])}|{tag}", {"case": case}))
+    if enabled_before and enabled_after and len(box["s5f1"]) != 1:
+        res["v"].append((f"C13|concurrent|change-of-an-enabled-alarm-not-reported-once|S5F1-count={len(box['s5f1'])}|{tag}", {"case": case}))
+    if not enabled_before and not enabled_after and box["s5f1"]:
+        res["v"].append((f"C13|concurrent|change-of-a-disabled-alarm-reported|{tag}", {"case": case}))
+    if len(box["ack"]) != 1:
+        res["v"].append((f"C13|concurrent|S5F3-answered-{len(box['ack'])}-times|{tag}", {"case": case}))
+    return res
+
+
 def run(ctx):
+    # S part first (line tracing before any pool is forked)
+    from checks import hsms_harness as hh  # noqa: PLC0415
+    from mc import explore  # noqa: PLC0415
+
+    missing = hh.trace_region(REGION)
+    if missing:
+        ctx.note(f"not line-traced (not found): {missing}")
+    kc = 3 if ctx.thorough else 2
+    cparts = []
+    for request, enabled_before, op in CONC:
+        st = explore.explore(ctx, run_conc, {"sched": kc}, f"c13-conc-{request}-{enabled_before}-{op}",
+                             opts={"request": request, "enabled_before": enabled_before, "op": op}, chunk=8)
+        cparts.append({"request": request, "enabled_before": enabled_before, "op": op, "executions": st["executions"],
+                       "outcomes": st["distinct_outcomes"], "levels_completed": st["levels_completed"]})
+        if st["levels_completed"] < kc:
+            ctx.exhaustive = False
+    ctx.setcov("concurrent_explorations", cparts)
+    ctx.setcov("delay_bound", kc)
     ctx.assumptions += [
+        "concurrent part: S5F3 (dispatcher thread) against set_alarm / clear_alarm (application thread), every schedule with <= K delays at line "
+        "granularity of the alarm capability",
         "reference model = plain dicts in checks/c13.py; replies are decoded with the independent codec",
         "the clock and the list-valued built-in status variables (1001, 1003-1005) are excluded from value comparison; "
         "unknown ALIDs in S5F5 are not in the alphabet (the statement does not say how they are answered)",
@@ -418,6 +523,18 @@ def run(ctx):
 
 
 def replay(ctx, detail):
+    if isinstance(detail.get("case"), dict) and detail["case"].get("part") == "conc":
+        from checks import hsms_harness as hh  # noqa: PLC0415
+
+        case = detail["case"]
+        hh.trace_region(REGION)
+        devs = {int(k): v for k, v in case.get("devs", {}).items()}
+        r = run_conc(devs, case.get("budgets", {}), request=case["request"], enabled_before=case["enabled_before"], op=case["op"])
+        ctx.evaluations += 1
+        print("replayed:", r.get("obs"))
+        for sig, d in r["v"]:
+            ctx.violation(sig, d)
+        return
     case = detail["case"]
     r = run_history(case["history"])
     ctx.evaluations += 1
